@@ -164,22 +164,17 @@ Inductive step_res :=
 
 (* parseChunkMetadataSuffix(tok); bufc = buf_ on entry (== tok.remaining() at this point) *)
 Definition meta_suffix (relaxed : bool) (st : pstate) (tok bufc : bytes) : step_res :=
-  match parse_strict_bws tok with
-  | Insuf => SRet st bufc []                          (* tok.reset(buf_); return false *)
-  | Bad e => SThrow e []
-  | Ok t1 =>
-    match exts_loop (S (length t1)) relaxed t1 bufc with
-    | None => SFuel
-    | Some (Insuf, ck) => SRet st ck []
-    | Some (Bad e, _) => SThrow e []
-    | Some (Ok t2, ck) =>
-      match tok_skipRequired EExtCrlf crlf t2 with
-      | Insuf => SRet st ck []
-      | Bad e => SThrow e []
-      | Ok t3 =>
-        SGo {| p_stage := if p_size st =? 0 then StMime else StChunk; p_size := p_size st; p_left := p_left st |}
-            t3 t3 []
-      end
+  match exts_loop (S (length tok)) relaxed tok bufc with
+  | None => SFuel
+  | Some (Insuf, ck) => SRet st ck []                  (* tok.reset(buf_); return false *)
+  | Some (Bad e, _) => SThrow e []
+  | Some (Ok t2, ck) =>
+    match tok_skipRequired EExtCrlf crlf t2 with
+    | Insuf => SRet st ck []
+    | Bad e => SThrow e []
+    | Ok t3 =>
+      SGo {| p_stage := if p_size st =? 0 then StMime else StChunk; p_size := p_size st; p_left := p_left st |}
+          t3 t3 []
     end
   end.
 
@@ -230,7 +225,9 @@ Definition grab_mime (st : pstate) (bufc : bytes) : step_res :=
     if trailer_limit <=? lenN bufc then SRet done bufc []
     else SRet st bufc [].
 
-(* parseChunkSize(tok): None = "return false" (need more data) *)
+(* parseChunkSize(tok): None = "return false" (need more data).  Since 1aa8f1c the BWS that may
+   follow the size (Bug 4492) is skipped here, before the checkpoint, and no longer on every
+   (re)entry into the chunk-ext stage. *)
 Definition chunk_size (st : pstate) (tok : bytes) : res (option (pstate * bytes)) :=
   if fst (tok_skip [48; 120] tok) || fst (tok_skip [48; 88] tok) then Bad E0x
   else match tok_int64 16 false npos tok with
@@ -238,7 +235,11 @@ Definition chunk_size (st : pstate) (tok : bytes) : res (option (pstate * bytes)
          let r := dropN k tok in
          if negb (is_nil r) then
            if (v <? 0)%Z then Bad ENeg
-           else Ok (Some ({| p_stage := StExt; p_size := Z.to_N v; p_left := Z.to_N v |}, r))
+           else match parse_strict_bws r with
+                | Insuf => Ok None                      (* catch (InsufficientInput) return false: nothing committed *)
+                | Bad e => Bad e
+                | Ok r' => Ok (Some ({| p_stage := StExt; p_size := Z.to_N v; p_left := Z.to_N v |}, r'))
+                end
          else Ok None                                  (* tok.atEnd(): need more data *)
        | None => if is_nil tok then Ok None else Bad ESize
        end.
